@@ -66,6 +66,8 @@ type Run struct {
 	solverOpen bool
 	solverSynced int
 	impDone map[*Term]bool
+	lastMs  *Term
+	durMs   map[*Term]*Term
 	inputs  []inputRec
 	nInstr  int64
 	nDecs   int
